@@ -780,10 +780,24 @@ func c20FreshLists(c *core.Ctx, pkg string) {
 							return
 						}
 					}
+					// a helper of the engine that builds and returns the list
+					if rvs := core.ReturnedValues(x); !(len(rvs) == 1 && rvs[0] == ssa.Value(x)) {
+						for _, rv := range rvs {
+							walk(rv)
+						}
+						return
+					}
 					why = "the list comes from " + core.Leaf{Kind: "call", Val: x}.Desc()
 				case *ssa.MakeSlice:
-					// allocated inside every loop that encloses the SetValue
-					ml := enclosingLoops(x.Block())
+					// allocated inside every loop that encloses the SetValue (a helper that
+					// allocates is "inside" wherever it is called)
+					at := ssa.Instruction(x)
+					if x.Parent() != in.Parent() {
+						if a2, _, ok := core.CommonFrame(core.RootOf(in.Parent()), x, in); ok {
+							at = a2
+						}
+					}
+					ml := enclosingLoops(at.Block())
 					for _, h := range loops {
 						found := false
 						for _, m := range ml {
